@@ -21,7 +21,7 @@ Definition logm : string := "rendered into a log line / the halt panic message o
 
 Definition audited_sites : list audit := [
   mkAudit "x/evidence/keeper/keeper.go" "Keeper.SetRouter" KProcState "keeper.Keeper.router" 1 "378ab6d753963e50" (Harmless wire);
-  mkAudit "x/evidence/types/router.go" "router.AddRoute" KProcState "types.router.routes" 1 "e0172629e772c76d" (Harmless wire);
+  mkAudit "x/evidence/types/router.go" "router.AddRoute" KProcState "types.router.routes" 1 "9eb96501a363d414" (Harmless wire);
   mkAudit "x/evidence/types/router.go" "router.Seal" KProcState "types.router.sealed" 1 "94a56912066252fc" (Harmless wire);
   mkAudit "x/gov/keeper/keeper.go" "Keeper.SetProposalRouter" KProcState "keeper.Keeper.proposalRouter" 1 "9676b88d7cdb7f14" (Harmless wire);
   mkAudit "x/multistaking/keeper/keeper.go" "Keeper.SetDistrKeeper" KProcState "keeper.Keeper.distrKeeper" 1 "906842565e6cf3c7" (Harmless wire);
@@ -29,53 +29,53 @@ Definition audited_sites : list audit := [
   mkAudit "x/slashing/keeper/keeper.go" "Keeper.SetHooks" KProcState "keeper.Keeper.hooks" 1 "300fe436c6e37b5f" (Harmless wire);
   mkAudit "x/staking/keeper/keeper.go" "Keeper.SetHooks" KProcState "keeper.Keeper.hooks" 1 "1d8a50ca33095404" (Harmless wire);
   mkAudit "x/upgrade/keeper/keeper.go" "Keeper.SetUpgradeHandler" KProcState "keeper.Keeper.upgradeHandlers" 1 "f9fb1bdfcc72eecc" (Harmless wire);
-  mkAudit "x/basket/module.go" "AppModule.InitGenesis" KLocalTime "time.Unix" 3 "f8f06f22f700fbb1" (Harmless "the local-zone value only reaches keeper.Set{Mint,Burn,Swap}Amount, whose store keys are built with sdk.FormatTimeBytes (= t.UTC().Round(0).Format): the zone is dropped; replica with another host zone imports such a genesis (history genesis-time-keyed)");
+  mkAudit "x/basket/module.go" "AppModule.InitGenesis" KLocalTime "time.Unix" 3 "3e77d475e160b49f" (Harmless "the local-zone value only reaches keeper.Set{Mint,Burn,Swap}Amount, whose store keys are built with sdk.FormatTimeBytes (= t.UTC().Round(0).Format): the zone is dropped; replica with another host zone imports such a genesis (history genesis-time-keyed)");
   mkAudit "x/evidence/types/params.go" "<pkg>" KLocalTime "time.Unix" 1 "7a8bcc1e725e8e77" (Harmless stdt);
-  mkAudit "x/slashing/keeper/hooks.go" "Keeper.AfterValidatorJoined" KLocalTime "time.Unix" 1 "8bad96588b45aaf1" (Harmless stdt);
-  mkAudit "x/slashing/keeper/rank.go" "Keeper.ResetWholeValidatorRank" KLocalTime "time.Unix" 1 "1300cf92ab621d1e" (Harmless stdt);
-  mkAudit "x/upgrade/abci.go" "BeginBlocker" KLocalTime "Time.String" 1 "90b5a937f3e77f90" (Harmless logm);
-  mkAudit "x/upgrade/abci.go" "BeginBlocker" KLocalTime "time.Unix" 1 "90b5a937f3e77f90" (Harmless logm);
-  mkAudit "x/upgrade/keeper/plan.go" "Keeper.ApplyUpgradePlan" KLocalTime "Time.String" 1 "71d8116d3fe40b25" (Harmless logm);
-  mkAudit "x/upgrade/keeper/plan.go" "Keeper.ApplyUpgradePlan" KLocalTime "time.Unix" 1 "71d8116d3fe40b25" (Harmless logm);
-  mkAudit "app/app.go" "BlockedAddresses" KMapRange "GetMaccPerms()" 1 "1e01a29695c7dbe7" (Harmless "fills a membership map");
+  mkAudit "x/slashing/keeper/hooks.go" "Keeper.AfterValidatorJoined" KLocalTime "time.Unix" 1 "fa636b2d101b28fb" (Harmless stdt);
+  mkAudit "x/slashing/keeper/rank.go" "Keeper.ResetWholeValidatorRank" KLocalTime "time.Unix" 1 "2ac869a2feb5a9bf" (Harmless stdt);
+  mkAudit "x/upgrade/abci.go" "BeginBlocker" KLocalTime "Time.String" 1 "615f43305dc7cfbc" (Harmless logm);
+  mkAudit "x/upgrade/abci.go" "BeginBlocker" KLocalTime "time.Unix" 1 "615f43305dc7cfbc" (Harmless logm);
+  mkAudit "x/upgrade/keeper/plan.go" "Keeper.ApplyUpgradePlan" KLocalTime "Time.String" 1 "b0920dd7294ac8fd" (Harmless logm);
+  mkAudit "x/upgrade/keeper/plan.go" "Keeper.ApplyUpgradePlan" KLocalTime "time.Unix" 1 "b0920dd7294ac8fd" (Harmless logm);
+  mkAudit "app/app.go" "BlockedAddresses" KMapRange "GetMaccPerms()" 1 "c24df54ec78ba238" (Harmless "fills a membership map");
   mkAudit "app/app.go" "GetMaccPerms" KMapRange "maccPerms" 1 "65321bf763126ecf" (Harmless "copies a map into a map");
   mkAudit "app/app.go" "SekaiApp.ModuleAccountAddrs" KMapRange "maccPerms" 1 "ae662819fb7c73d2" (Harmless "fills a membership map");
-  mkAudit "x/custody/types/custody.pb.go" "CustodyCustodianList.MarshalToSizedBuffer" KPbMap "m.Addresses" 1 "c8d33e4e0db2e7b7" (Finding "custody-map-encoding");
-  mkAudit "x/custody/types/custody.pb.go" "CustodyCustodianList.Size" KMapRange "m.Addresses" 1 "18d5d387c85fc459" (Harmless sz);
-  mkAudit "x/custody/types/custody.pb.go" "CustodyLimits.MarshalToSizedBuffer" KPbMap "m.Limits" 1 "925fd0ff71953fdb" (Finding "custody-map-encoding");
-  mkAudit "x/custody/types/custody.pb.go" "CustodyLimits.Size" KMapRange "m.Limits" 1 "800a288d311cacde" (Harmless sz);
-  mkAudit "x/custody/types/custody.pb.go" "CustodyStatuses.MarshalToSizedBuffer" KPbMap "m.Statuses" 1 "85614f6a0b3e21fa" (Finding "custody-map-encoding");
-  mkAudit "x/custody/types/custody.pb.go" "CustodyStatuses.Size" KMapRange "m.Statuses" 1 "21b12a6cf7ad16fe" (Harmless sz);
-  mkAudit "x/custody/types/custody.pb.go" "CustodyWhiteList.MarshalToSizedBuffer" KPbMap "m.Addresses" 1 "3ea5a3abeb0d9d50" (Finding "custody-map-encoding");
-  mkAudit "x/custody/types/custody.pb.go" "CustodyWhiteList.Size" KMapRange "m.Addresses" 1 "7204b107f848cdba" (Harmless sz);
-  mkAudit "x/custody/types/tx.pb.go" "TransactionPool.MarshalToSizedBuffer" KPbMap "m.Record" 1 "923f67b742e44b3d" (Finding "custody-map-encoding");
-  mkAudit "x/custody/types/tx.pb.go" "TransactionPool.Size" KMapRange "m.Record" 1 "d094288e62630bcc" (Harmless sz);
-  mkAudit "x/distributor/keeper/abci.go" "Keeper.BeginBlocker" KTimeNow "time.Now" 1 "773f45d073890e16" (Harmless tele);
-  mkAudit "x/evidence/abci.go" "BeginBlocker" KTimeNow "time.Now" 1 "18897b690c06b9a3" (Harmless tele);
+  mkAudit "x/custody/types/custody.pb.go" "CustodyCustodianList.MarshalToSizedBuffer" KPbMap "m.Addresses" 1 "4c90db94ad289401" (Finding "custody-map-encoding");
+  mkAudit "x/custody/types/custody.pb.go" "CustodyCustodianList.Size" KMapRange "m.Addresses" 1 "cb118c4722434560" (Harmless sz);
+  mkAudit "x/custody/types/custody.pb.go" "CustodyLimits.MarshalToSizedBuffer" KPbMap "m.Limits" 1 "431e558994d29c00" (Finding "custody-map-encoding");
+  mkAudit "x/custody/types/custody.pb.go" "CustodyLimits.Size" KMapRange "m.Limits" 1 "4c76728952e86f8e" (Harmless sz);
+  mkAudit "x/custody/types/custody.pb.go" "CustodyStatuses.MarshalToSizedBuffer" KPbMap "m.Statuses" 1 "e765423000a7b13b" (Finding "custody-map-encoding");
+  mkAudit "x/custody/types/custody.pb.go" "CustodyStatuses.Size" KMapRange "m.Statuses" 1 "71b0ea2078b85aea" (Harmless sz);
+  mkAudit "x/custody/types/custody.pb.go" "CustodyWhiteList.MarshalToSizedBuffer" KPbMap "m.Addresses" 1 "ec1b661e6cf5563f" (Finding "custody-map-encoding");
+  mkAudit "x/custody/types/custody.pb.go" "CustodyWhiteList.Size" KMapRange "m.Addresses" 1 "10abca0148c9a33b" (Harmless sz);
+  mkAudit "x/custody/types/tx.pb.go" "TransactionPool.MarshalToSizedBuffer" KPbMap "m.Record" 1 "ade808ea2b85288b" (Finding "custody-map-encoding");
+  mkAudit "x/custody/types/tx.pb.go" "TransactionPool.Size" KMapRange "m.Record" 1 "e2a7fca8eac149da" (Harmless sz);
+  mkAudit "x/distributor/keeper/abci.go" "Keeper.BeginBlocker" KTimeNow "time.Now" 1 "8663285506f1529b" (Harmless tele);
+  mkAudit "x/evidence/abci.go" "BeginBlocker" KTimeNow "time.Now" 1 "4f59860c9cab9067" (Harmless tele);
   mkAudit "x/evidence/module.go" "AppModule.RandomizedParams" KRand "math/rand.Rand" 1 "af3ca6c58f9814fc" (Harmless simu);
-  mkAudit "x/gov/genesis.go" "InitGenesis" KMapRange "genesisState.DataRegistry" 1 "327ac8651436b573" (Harmless "one store write per distinct key: the writes commute");
-  mkAudit "x/gov/genesis.go" "InitGenesis" KMapRange "genesisState.ProposalDurations" 1 "327ac8651436b573" (Harmless "collects the keys only; they are sorted before use (commit f1cf68b)");
-  mkAudit "x/gov/genesis.go" "InitGenesis" KMapRange "genesisState.RolePermissions" 1 "327ac8651436b573" (Harmless "each role's keys (permission record, whitelist and - since 53081b1 - blacklist index entries) are written from that role's slices only; roles commute");
-  mkAudit "x/gov/keeper/grpc_query.go" "Keeper.AllExecutionFees" KMapRange "kiratypes.MsgFuncIDMapping" 1 "0db0ac36ee111344" (Harmless "gRPC query only");
-  mkAudit "x/gov/keeper/util.go" "CheckIfAllowedPermission" KMapRange "roles" 2 "b81d052d3105cc53" (Harmless "idempotent writes into a permission map: a whitelist pass, then a blacklist pass");
-  mkAudit "x/gov/types/genesis.pb.go" "GenesisState.MarshalToSizedBuffer" KPbMap "m.DataRegistry" 1 "0b1e1d8c01deee09" (Harmless gjs);
-  mkAudit "x/gov/types/genesis.pb.go" "GenesisState.MarshalToSizedBuffer" KPbMap "m.ProposalDurations" 1 "0b1e1d8c01deee09" (Harmless gjs);
-  mkAudit "x/gov/types/genesis.pb.go" "GenesisState.MarshalToSizedBuffer" KPbMap "m.RolePermissions" 1 "0b1e1d8c01deee09" (Harmless gjs);
-  mkAudit "x/gov/types/genesis.pb.go" "GenesisState.Size" KMapRange "m.DataRegistry" 1 "483fb0c6b7300a79" (Harmless sz);
-  mkAudit "x/gov/types/genesis.pb.go" "GenesisState.Size" KMapRange "m.ProposalDurations" 1 "483fb0c6b7300a79" (Harmless sz);
-  mkAudit "x/gov/types/genesis.pb.go" "GenesisState.Size" KMapRange "m.RolePermissions" 1 "483fb0c6b7300a79" (Harmless sz);
+  mkAudit "x/gov/genesis.go" "InitGenesis" KMapRange "genesisState.DataRegistry" 1 "8332f87e3240c31b" (Harmless "one store write per distinct key: the writes commute");
+  mkAudit "x/gov/genesis.go" "InitGenesis" KMapRange "genesisState.ProposalDurations" 1 "8332f87e3240c31b" (Harmless "collects the keys only; they are sorted before use (commit f1cf68b)");
+  mkAudit "x/gov/genesis.go" "InitGenesis" KMapRange "genesisState.RolePermissions" 1 "8332f87e3240c31b" (Harmless "each role's keys (permission record, whitelist and - since 53081b1 - blacklist index entries) are written from that role's slices only; roles commute");
+  mkAudit "x/gov/keeper/grpc_query.go" "Keeper.AllExecutionFees" KMapRange "kiratypes.MsgFuncIDMapping" 1 "9f3c35b32eb757e5" (Harmless "gRPC query only");
+  mkAudit "x/gov/keeper/util.go" "CheckIfAllowedPermission" KMapRange "roles" 2 "92949239a62ef17c" (Harmless "idempotent writes into a permission map: a whitelist pass, then a blacklist pass");
+  mkAudit "x/gov/types/genesis.pb.go" "GenesisState.MarshalToSizedBuffer" KPbMap "m.DataRegistry" 1 "ac1bf6c78cf7413a" (Harmless gjs);
+  mkAudit "x/gov/types/genesis.pb.go" "GenesisState.MarshalToSizedBuffer" KPbMap "m.ProposalDurations" 1 "ac1bf6c78cf7413a" (Harmless gjs);
+  mkAudit "x/gov/types/genesis.pb.go" "GenesisState.MarshalToSizedBuffer" KPbMap "m.RolePermissions" 1 "ac1bf6c78cf7413a" (Harmless gjs);
+  mkAudit "x/gov/types/genesis.pb.go" "GenesisState.Size" KMapRange "m.DataRegistry" 1 "f34ae3fcc476afa1" (Harmless sz);
+  mkAudit "x/gov/types/genesis.pb.go" "GenesisState.Size" KMapRange "m.ProposalDurations" 1 "f34ae3fcc476afa1" (Harmless sz);
+  mkAudit "x/gov/types/genesis.pb.go" "GenesisState.Size" KMapRange "m.RolePermissions" 1 "f34ae3fcc476afa1" (Harmless sz);
   mkAudit "x/gov/types/identity_registrar.go" "WrapInfos" KMapRange "infos" 1 "ed1fe314e8f0a81e" (Harmless "only caller is x/gov/client/cli (builds a message on the client)");
-  mkAudit "x/gov/types/poll_vote.go" "CalculatedPollVotes.ProcessResult" KMapRange "c.votes" 2 "0ca5b183bb587ad7" (Harmless "order-independent: theorem C01_poll_tally_order_independent");
-  mkAudit "x/gov/types/query.pb.go" "QueryAllProposalDurationsResponse.MarshalToSizedBuffer" KPbMap "m.ProposalDurations" 1 "bc217bb85506cce3" (Harmless qry);
-  mkAudit "x/gov/types/query.pb.go" "QueryAllProposalDurationsResponse.Size" KMapRange "m.ProposalDurations" 1 "653bf361814c668d" (Harmless qry);
+  mkAudit "x/gov/types/poll_vote.go" "CalculatedPollVotes.ProcessResult" KMapRange "c.votes" 2 "67c8b6858f9ba1da" (Harmless "order-independent: theorem C01_poll_tally_order_independent");
+  mkAudit "x/gov/types/query.pb.go" "QueryAllProposalDurationsResponse.MarshalToSizedBuffer" KPbMap "m.ProposalDurations" 1 "c51df105c3f0010f" (Harmless qry);
+  mkAudit "x/gov/types/query.pb.go" "QueryAllProposalDurationsResponse.Size" KMapRange "m.ProposalDurations" 1 "ff3ab330ee148b0d" (Harmless qry);
   mkAudit "x/recovery/module.go" "AppModule.RandomizedParams" KRand "math/rand.Rand" 1 "f3a129412892fe14" (Harmless simu);
-  mkAudit "x/slashing/abci.go" "BeginBlocker" KTimeNow "time.Now" 1 "349ccd2babeaae00" (Harmless tele);
+  mkAudit "x/slashing/abci.go" "BeginBlocker" KTimeNow "time.Now" 1 "1a4493029a039a66" (Harmless tele);
   mkAudit "x/slashing/module.go" "AppModule.RandomizedParams" KRand "math/rand.Rand" 1 "f3a129412892fe14" (Harmless simu);
   mkAudit "x/slashing/types/query.pb.go" "IdentityRecord.Equal" KMapRange "this.Infos" 1 "1e99e072915a3867" (Harmless qry);
-  mkAudit "x/slashing/types/query.pb.go" "IdentityRecord.MarshalToSizedBuffer" KPbMap "m.Infos" 1 "fceb203cf9c59f80" (Harmless qry);
-  mkAudit "x/slashing/types/query.pb.go" "IdentityRecord.Size" KMapRange "m.Infos" 1 "10b78b0574725511" (Harmless qry);
-  mkAudit "x/tokens/types/query.pb.go" "TokenInfosByDenomResponse.MarshalToSizedBuffer" KPbMap "m.Data" 1 "10195f4f15eb3829" (Harmless qry);
-  mkAudit "x/tokens/types/query.pb.go" "TokenInfosByDenomResponse.Size" KMapRange "m.Data" 1 "410ef602a129e5a1" (Harmless qry)
+  mkAudit "x/slashing/types/query.pb.go" "IdentityRecord.MarshalToSizedBuffer" KPbMap "m.Infos" 1 "28a77175f9456a13" (Harmless qry);
+  mkAudit "x/slashing/types/query.pb.go" "IdentityRecord.Size" KMapRange "m.Infos" 1 "cd1e8fdb232b9eae" (Harmless qry);
+  mkAudit "x/tokens/types/query.pb.go" "TokenInfosByDenomResponse.MarshalToSizedBuffer" KPbMap "m.Data" 1 "17f608dd4247ccad" (Harmless qry);
+  mkAudit "x/tokens/types/query.pb.go" "TokenInfosByDenomResponse.Size" KMapRange "m.Data" 1 "f283424dbed3d61e" (Harmless qry)
 ]%string.
 
 (* Every source of replica nondeterminism the translator finds in the tree (time.Now/Since/Until,
